@@ -79,7 +79,7 @@ def main():
     hooks_commits = subprocess.run(["git", "-C", "/repo", "log", "--format=%H", "--grep=THEO_VERIF"], capture_output=True, text=True).stdout.split()
     man = {
         "version": 1,
-        "setup_cmd": "python3 lib/setup.py",
+        "setup_cmd": "python3 lib/setup.py && python3 lib/selftest.py",
         "hooks": {
             "guard": "THEO_VERIF",
             "enable": "harness/CMakeLists.txt compiles /repo's sources with -DTHEO_VERIF (read-only accessors at the end of class Theo::VM in VM/include/vm.hpp)",
